@@ -154,6 +154,7 @@ package dns
 //@ spec ascii7(s seq) bool = forall k in 0..len(s) :: s[k] < 128
 
 //@ func CanonicalName [C19 C10 C17]
+//@   ensures nonempty: len(ret0) > 0
 //@   ensures fq:    ascii7(s) && IsFqdnSpec(s) ==> len(ret0) == len(s) && (forall k in 0..len(s) :: ret0[k] == lower(s[k]))
 //@   ensures nonfq: ascii7(s) && !IsFqdnSpec(s) ==> len(ret0) == len(s) + 1 && ret0[len(s)] == '.' && (forall k in 0..len(s) :: ret0[k] == lower(s[k]))
 //@   pure
